@@ -45,12 +45,15 @@ type Case struct {
 	// Exact: operations that take channel operation options use exact input matching (a different
 	// read-until loop than the default fuzzy one)
 	Exact bool `json:"exact,omitempty"`
+	// Interim: the operation is given an interim prompt pattern (one the device never shows): the
+	// channel then waits with a different read-until call
+	Interim bool `json:"interim,omitempty"`
 }
 
 // every exported RPC method of the NETCONF driver that takes no per-operation timeout itself
 var ncKinds = []string{"lock", "unlock", "commit", "discard", "copy-config", "delete-config", "edit-config", "validate", "get-config", "rpc", "subscribe"}
 
-var ops = []string{"getprompt", "cmd", "cmds", "interactive", "acquire", "acquire-auth", "ncmd", "nconfigs", "nc-open", "nc-get", "nc-lock", "login-telnet", "login-ssh"}
+var ops = []string{"getprompt", "cmd", "cmds", "interactive", "acquire", "acquire-auth", "acquire-down", "ncmd", "nconfigs", "nc-open", "nc-get", "nc-lock", "login-telnet", "login-ssh", "open-hook"}
 
 const (
 	connTimeout = time.Second
@@ -75,6 +78,7 @@ func gen(t *rapid.T) Case {
 		Version:     rapid.SampledFrom([]string{"1.0", "1.1"}).Draw(t, "version"),
 		Echo:        rapid.Bool().Draw(t, "ncEcho"),
 		Exact:       rapid.Bool().Draw(t, "exact"),
+		Interim:     rapid.IntRange(0, 3).Draw(t, "interim") == 0,
 	}
 
 	for i := 0; i < rapid.IntRange(0, 3).Draw(t, "nOut"); i++ {
@@ -188,6 +192,29 @@ func build(c *Case) (*scenario, error) {
 	}
 
 	switch c.Op {
+	case "open-hook":
+		// Open with an on-open function that sends a command: Open must fail when that fails
+		dev, _ := cliDevice(c)
+		s.pipe = sim.NewPipe(dev)
+		s.pipe.Plan = c.Plan
+
+		d, err := generic.NewDriver("sim", append(common(s.pipe), options.WithPromptPattern(regexp.MustCompile(`(?im)^r7[>#]\s*$`)),
+			options.WithOnOpen(func(gd *generic.Driver) error {
+				_, e := gd.SendCommand(c.Cmd)
+
+				return e
+			}))...)
+		if err != nil {
+			return nil, err
+		}
+
+		s.open = true
+		s.single = false
+		s.trailing = 1
+		s.prepare = func() error { return nil }
+		s.closeF = func() { _ = d.Close() }
+		s.lines = dev.LineStrings
+		s.op = func([]util.Option) (string, error) { return "", d.Open() }
 	case "getprompt", "cmd", "cmds", "interactive":
 		dev, _ := cliDevice(c)
 		s.pipe = sim.NewPipe(dev)
@@ -251,7 +278,8 @@ func build(c *Case) (*scenario, error) {
 			s.wantResult = "ok\n" + sim.NormOutput(c.Out)
 		case "interactive":
 			s.perOp = true
-			s.single = false
+			// one timer spans the whole interactive operation: both bounds apply from its start
+			s.single = true
 			s.op = func(o []util.Option) (string, error) {
 				r, e := d.SendInteractive([]*channel.SendInteractiveEvent{
 					{ChannelInput: "q " + c.Cmd, ChannelResponse: `\[y/n\]:`},
@@ -265,7 +293,7 @@ func build(c *Case) (*scenario, error) {
 			}
 			s.wantResult = ""
 		}
-	case "acquire", "acquire-auth", "ncmd", "nconfigs":
+	case "acquire", "acquire-auth", "acquire-down", "ncmd", "nconfigs":
 		dev, _ := cliDevice(c)
 		s.pipe = sim.NewPipe(dev)
 		s.pipe.Plan = c.Plan
@@ -304,6 +332,16 @@ func build(c *Case) (*scenario, error) {
 		switch c.Op {
 		case "acquire", "acquire-auth":
 			s.op = func([]util.Option) (string, error) { return "", d.AcquirePriv("configuration") }
+		case "acquire-down":
+			// the way down: from the configuration level to exec ("end", "disable")
+			s.prepare = func() error {
+				if e := d.Open(); e != nil {
+					return e
+				}
+
+				return d.AcquirePriv("configuration")
+			}
+			s.op = func([]util.Option) (string, error) { return "", d.AcquirePriv("exec") }
 		case "ncmd":
 			s.perOp = true
 			s.privErr = true
@@ -506,12 +544,20 @@ func build(c *Case) (*scenario, error) {
 	return s, nil
 }
 
+var neverShown = regexp.MustCompile(`(?m)^never-shown-sub-mode>\s*$`)
+
 func exactOpt(c *Case) []util.Option {
+	var o []util.Option
+
 	if c.Exact {
-		return []util.Option{opoptions.WithExactMatchInput()}
+		o = append(o, opoptions.WithExactMatchInput())
 	}
 
-	return nil
+	if c.Interim {
+		o = append(o, opoptions.WithInterimPromptPattern([]*regexp.Regexp{neverShown}))
+	}
+
+	return o
 }
 
 // quiesce waits (virtual time) until everything the device produced so far has been delivered.
@@ -635,9 +681,7 @@ func run(c Case) ev.Verdict {
 		perOp = []util.Option{opoptions.WithTimeoutOps(0)}
 	}
 
-	if c.Exact {
-		perOp = append(perOp, opoptions.WithExactMatchInput())
-	}
+	perOp = append(perOp, exactOpt(&c)...)
 
 	type outcome struct {
 		res string
@@ -784,6 +828,22 @@ func run(c Case) ev.Verdict {
 		}
 
 		v.Classes = append(v.Classes, "recovery")
+	}
+
+	if c.Op == "interactive" && s.lines != nil {
+		// a timed-out operation consumes no further device output: when the device catches up with
+		// its question nobody may answer it any more
+		before := len(s.lines())
+
+		time.Sleep(50 * time.Millisecond)
+		s.pipe.ClearFault()
+		time.Sleep(300 * time.Millisecond)
+
+		if ls := s.lines(); len(ls) != before {
+			return ev.Fail("interactive: after its timeout error the operation went on typing %q when the device caught up", ls[before:])
+		}
+
+		v.Classes = append(v.Classes, "no-typing-after-timeout")
 	}
 
 	s.closeF()
